@@ -164,6 +164,22 @@ fn show_info(secp: &Secp256k1<elements::secp256k1_zkp::All>, info: &TaprootSpend
             None => picks.push("none".into()),
         }
     }
+    // the 128-level limit: no produced control block may have more than 128 nodes / 4129 bytes, and each must survive its own codec
+    for (s, v, b) in &ents {
+        let n = b.as_inner().len();
+        let c = ControlBlock { leaf_version: *v, output_key_parity: par, internal_key: p, merkle_branch: b.clone() };
+        let ser = c.serialize();
+        if n > 128 || ser.len() > 33 + 32 * 128 {
+            fail.set("cb-too-deep", format!("finalize produced a control block with {} nodes / {} bytes (limit 128 / 4129) for leaf {:x}", n, ser.len(), s));
+        }
+        if ser.len() != 33 + 32 * n || c.size() != ser.len() {
+            fail.set("cb-length", format!("control block length {} is not 33+32*{}", ser.len(), n));
+        }
+        match ControlBlock::from_slice(&ser) {
+            Ok(c2) => if c2 != c { fail.set("cb-roundtrip", format!("from_slice(serialize(cb)) differs from cb (depth {})", n)); },
+            Err(e) => fail.set("cb-roundtrip", format!("from_slice(serialize(cb)) fails with {} (depth {})", terr(&e), n)),
+        }
+    }
     let shown: Vec<&(Script, LeafVersion, TaprootMerkleBranch)> = ents.iter().take(show).collect();
     let cbs: Vec<ControlBlock> = shown.iter().map(|(_, v, b)| ControlBlock { leaf_version: *v, output_key_parity: par, internal_key: p, merkle_branch: b.clone() }).collect();
     let legit = |c: &ControlBlock, q2: &TweakedPublicKey, s: &Script| -> bool {
@@ -306,7 +322,11 @@ pub fn eval(case: &str) -> Out {
             let (sk, p, alt, show) = match (unhex(w[2]), xonly(w[3]), xonly(w[4]), w[5].parse::<usize>().ok()) { (Some(a), Some(b), Some(c), Some(d)) => (a, b, c, d), _ => return bad("fields") };
             let items: Vec<Item> = if w[6] == "-" { vec![] } else { match w[6].split(',').map(Item::parse).collect::<Option<Vec<_>>>() { Some(v) => v, None => return bad("items") } };
             let spec = spec_tree(&items);
-            let result = match real_build(&items) {
+            let built = match std::panic::catch_unwind(|| real_build(&items)) {
+                Ok(r) => r,
+                Err(_) => { fail.set("builder-panic", "add_leaf/add_hidden panicked instead of refusing".into()); return Out { result: "panic builder".into(), pred_fail: fail.0 }; }
+            };
+            let result = match built {
                 Err((ix, e)) => format!("err {} at={}", berr(&e), ix),
                 Ok(b) => {
                     let order = leaf_order(&b);
@@ -319,6 +339,8 @@ pub fn eval(case: &str) -> Out {
                         Err(e) => format!("err {}", berr(&e)),
                         Ok(info) => {
                             let s = show_info(&secp, &info, &alt, show, &mut fail);
+                            if let Some(d) = items.iter().map(|i| i.depth()).max() { if d > 128 {
+                                fail.set("too-deep-accepted", format!("a tree with a node at depth {} (> 128) was built and finalized", d)); } }
                             match &spec {
                                 Some(t) => { let (root, leaves) = spec_paths(t); check_against_spec(&secp, &info, root, &leaves, &sk, &mut fail); }
                                 None => fail.set("accepted-invalid", "finalize accepted a depth sequence that is not the depth-first walk of a binary tree of height <= 128".into()),
@@ -376,6 +398,7 @@ pub fn eval(case: &str) -> Out {
                     let re = c.serialize();
                     if re != sl { fail.set("cb-roundtrip", "serialize(from_slice(x)) differs from x".into()); }
                     if sl.len() != 33 + 32 * c.merkle_branch.as_inner().len() { fail.set("cb-length", "accepted control block whose length is not 33+32*depth".into()); }
+                    if c.merkle_branch.as_inner().len() > 128 { fail.set("cb-too-deep", "from_slice accepted a control block with more than 128 nodes".into()); }
                     format!("ok ver={:02x} par={} key={} n={} size={} reser={}", c.leaf_version.as_u8(), par01(c.output_key_parity), hex(&c.internal_key.serialize()),
                         c.merkle_branch.as_inner().len(), c.size(), if re == sl { 1 } else { 0 })
                 }
@@ -449,12 +472,13 @@ fn build_case(secp: &Secp256k1<elements::secp256k1_zkp::All>, k: &Keys, items: &
     // record the secp256k1 results the model needs: tweak of the internal key and of the alternative key by the real root
     let mut oracle = "-".to_string();
     let mut class = "err".to_string();
-    match real_build(items) {
-        Ok(b) => match b.finalize(secp, k.p) {
-            Ok(info) => { oracle = oracle_text(secp, &[k.p, k.alt], info.merkle_root()); class = "ok".into(); }
-            Err(e) => class = berr(&e).split(':').next().unwrap().to_string(),
-        },
-        Err((_, e)) => class = berr(&e).split(':').next().unwrap().to_string(),
+    // under catch_unwind: a broken library must produce failing cases, not take the generator down
+    let built = std::panic::catch_unwind(|| real_build(items).map(|b| b.finalize(secp, k.p).map(|info| info.merkle_root())));
+    match built {
+        Ok(Ok(Ok(root))) => { oracle = oracle_text(secp, &[k.p, k.alt], root); class = "ok".into(); }
+        Ok(Ok(Err(e))) => class = berr(&e).split(':').next().unwrap().to_string(),
+        Ok(Err((_, e))) => class = berr(&e).split(':').next().unwrap().to_string(),
+        Err(_) => class = "panic".to_string(),
     }
     tags.push(format!("class-{}", class));
     tags.push(format!("n{}", bucket(items.len())));
@@ -543,21 +567,30 @@ pub fn gen(rng: &mut ChaCha20Rng, n: usize, thorough: bool) -> Vec<Case> {
         out.push(build_case(&secp, &k, &m, 99, vec!["mutated-tree".to_string(), format!("mut{}", what)]));
     }
     // ---- (4) chains around the 128 limit, and absurd depths
-    for &kd in &[126usize, 127, 128, 129] {
-        for style in 0..3 {
+    for &kd in &[126usize, 127, 128, 129, 130] {
+        for style in 0..4 {
             let mut depths: Vec<usize> = match style {
                 0 => (1..=kd).chain(std::iter::once(kd)).collect(),          // deepest pair last
-                1 => std::iter::once(kd).chain((1..=kd).rev()).collect(),    // deepest pair first
+                1 | 3 => std::iter::once(kd).chain((1..=kd).rev()).collect(), // deepest pair first
                 _ => (1..=kd).chain(std::iter::once(kd)).collect(),
             };
             if style == 2 { depths.truncate(kd); }                            // incomplete: the last leaf is missing
             let mut tags = vec![format!("chain{}", kd), format!("chainstyle{}", style)];
             let mut items = fill(rng, &depths, &mut tags);
             if style == 1 { if let Some(Item::Leaf { .. }) = items.first() { items[0] = Item::Hidden { depth: kd, hash: r32(rng) }; } }
+            if style == 3 {
+                // caterpillar: two real leaves at the bottom, one hidden sibling at every level above
+                for (j, it) in items.iter_mut().enumerate() {
+                    let d = it.depth();
+                    *it = if j < 2 { Item::Leaf { depth: d, ver: 0xc4, script: vec![0x51 + j as u8] } } else { Item::Hidden { depth: d, hash: r32(rng) } };
+                }
+            }
             out.push(build_case(&secp, &k0, &items, 3, tags));
         }
     }
-    for &d in &[129usize, 130, 255, 256, 65536, 4294967295, 4294967296, 18446744073709551615] {
+    // (values of 2^32 and above are limited to usize::MAX: without the early depth check they would make the library allocate
+    //  depth+1 vector slots, which no catch_unwind can survive)
+    for &d in &[129usize, 130, 255, 256, 65536, 1048576, 18446744073709551615] {
         let items = vec![Item::Leaf { depth: d, ver: 0xc4, script: vec![0x51] }];
         out.push(build_case(&secp, &k0, &items, 3, vec!["absurd-depth".to_string()]));
         let items = vec![Item::Leaf { depth: 1, ver: 0xc4, script: vec![0x51] }, Item::Hidden { depth: d, hash: [7u8; 32] }];
@@ -624,6 +657,12 @@ pub fn gen(rng: &mut ChaCha20Rng, n: usize, thorough: bool) -> Vec<Case> {
         let mut tags = vec!["huff-random".to_string(), format!("hstyle{}", style), format!("hn{}", bucket(len))];
         if ws.iter().map(|x| &x.1).collect::<BTreeSet<_>>().len() != ws.len() { tags.push("dup-script".into()); }
         out.push(huff_case(&secp, &k, &ws, 99, tags));
+    }
+    // weights whose partial sums exceed u32::MAX (the heap must add them as u64): eight leaves, a few script variations
+    for j in 0..8u32 {
+        let wts = [4294967295u32, 4294967294, 2147483648, 2147483648 + j, 4294967295, 1073741824, 2147483648, 4294967293];
+        let ws: Vec<(u32, Vec<u8>)> = wts.iter().enumerate().map(|(i, w)| (*w, vec![0x51 + i as u8, 0x75, j as u8, 0xaa])).collect();
+        out.push(huff_case(&secp, &k0, &ws, 99, vec!["huff-u32-sums".to_string(), "hn7-15".to_string()]));
     }
     // zero weights: ties are broken by the node order, so the tree can degenerate into a chain deeper than 128 (TooDeep from combine)
     for &cnt in &[20usize, 129, 130, 140] {
